@@ -31,16 +31,23 @@ Definition p_str : sp bytes := s <~ p_bin ;; _ <~ sguard (utf8_valid s) ;; sret 
 Definition p_rest : sp bytes := fun d => Some (d, []).
 Definition at_end : sp bool := fun d => Some (match d with [] => true | _ => false end, d).
 
-(* 1.5.5 variable byte integer; the encoded value MUST use the minimum number of bytes *)
+Section Strictness.
+(* strict = true is the standard ([MQTT-1.5.5-1]: the encoded value MUST use the minimum number of
+   bytes) and is what Spec.parse means; strict = false also reads non-minimal encodings and exists
+   only so that checks can tell "rejected because of a non-minimal integer" (outside C04's
+   quantifier) from every other reason. *)
+Variable strict : bool.
+
+(* 1.5.5 variable byte integer *)
 Definition p_vbi : sp N :=
   b0 <~ p_u8 ;;
   if b0 <? 128 then sret b0 else
   b1 <~ p_u8 ;;
-  if b1 <? 128 then (_ <~ sguard (0 <? b1) ;; sret (b0 - 128 + 128 * b1)) else
+  if b1 <? 128 then (_ <~ sguard (negb strict || (0 <? b1)) ;; sret (b0 - 128 + 128 * b1)) else
   b2 <~ p_u8 ;;
-  if b2 <? 128 then (_ <~ sguard (0 <? b2) ;; sret (b0 - 128 + 128 * (b1 - 128) + 16384 * b2)) else
+  if b2 <? 128 then (_ <~ sguard (negb strict || (0 <? b2)) ;; sret (b0 - 128 + 128 * (b1 - 128) + 16384 * b2)) else
   b3 <~ p_u8 ;;
-  if b3 <? 128 then (_ <~ sguard (0 <? b3) ;;
+  if b3 <? 128 then (_ <~ sguard (negb strict || (0 <? b3)) ;;
                      sret (b0 - 128 + 128 * (b1 - 128) + 16384 * (b2 - 128) + 2097152 * b3))
   else sfail.
 
@@ -53,7 +60,7 @@ Definition p_bool01 : sp bool := b <~ p_u8 ;; if b =? 0 then sret false else if 
 (* one or more / zero or more items until the slice is used up (fuel = slice length) *)
 Fixpoint many_fuel {A} (fuel : nat) (item : sp A) (acc : list A) : sp (list A) :=
   fun d => match d with
-           | [] => Some (rev acc, [])
+           | [] => Some (rev' acc, [])
            | _ => match fuel with
                   | O => None
                   | S f => match item d with
@@ -367,5 +374,11 @@ Definition parse5 (d : bytes) : option V5.packet :=
     then exactly (body5 typ flags) body
     else None
   end.
+
+End Strictness.
+
+(* the specification proper: strict *)
+Definition parse3_strict := parse3 true.
+Definition parse5_strict := parse5 true.
 
 End SP.
